@@ -2,8 +2,8 @@ SPEC = dict(
     claimed=True,
     title='Curves evaluate to their documented function, always within 0..255',
     props_file='Props/C06.v', props_mod='Props.C06',
-    props_extra=[('Props/C06Steps.v', 'Props.C06Steps'), ('Props/C06LinMid.v', 'Props.C06LinMid')],
-    proof_files=['Proofs/StepsFloat.v', 'Proofs/StepsSeg.v', 'Proofs/StepsMono.v', 'Proofs/CurveLinMid.v', 'Model/Curves.v', 'Proofs/CurveFloat.v', 'Proofs/CurveFn.v', 'Proofs/CurvePid.v', 'Proofs/CurveLin.v',
+    props_extra=[('Props/C06Link.v', 'Props.C06Link'), ('Props/C06Steps.v', 'Props.C06Steps'), ('Props/C06LinMid.v', 'Props.C06LinMid')],
+    proof_files=['Proofs/CurveLinks.v', 'Proofs/CurveRange.v', 'Proofs/StepsFloat.v', 'Proofs/StepsSeg.v', 'Proofs/StepsMono.v', 'Proofs/CurveLinMid.v', 'Model/Curves.v', 'Proofs/CurveFloat.v', 'Proofs/CurveFn.v', 'Proofs/CurvePid.v', 'Proofs/CurveLin.v',
                  'Proofs/CurveLinMono.v', 'Proofs/CurvePidRange.v', 'Proofs/CurveSteps.v', 'Proofs/CurveMono.v', 'Drv/Curves.v'],
     tie_vo=['Proofs/LeafTie.vo', 'Proofs/LeafTie2_functionAgg.vo', 'Proofs/LeafTie2_linearEval.vo', 'Proofs/LeafTie2_PidLoop.vo'],
     drivers=[dict(name='curves', drv_mod='Drv.Curves', drv_file='Drv/Curves.v', shard=150,
